@@ -18,6 +18,7 @@ per trap: switched ON or OFF, stopped flag, pending flag; global: error-handler 
                     order)
   RETURN          : stopped := false (unless the handler itself switched the trap OFF: stays OFF)
   x ON            : ON, stopped := false ; x STOP: stopped := true ; x OFF: OFF
+  ON x GOSUB n    : (re)defines the routine only; no other state changes
   ERROR 99        : error handler active until RESUME NEXT; occurrences are still remembered
   END             : not running; nothing is entered afterwards
   TIMER           : armed by TIMER ON (manual: "triggered every x seconds after the TIMER ON
@@ -38,9 +39,10 @@ from pcbasic.basic.base import signals
 
 ID = 'C38'
 LEVEL = 'exploration'
-RULE = ("exhaustive: 14 fixed programs (two or three traps among KEY(1), KEY(11), PEN, STRIG(0), "
+RULE = ("exhaustive: 18 fixed programs (two or three traps among KEY(1), KEY(11), PEN, STRIG(0), "
         "TIMER; ON/STOP/OFF sequences, handlers that re-enable / switch off their own or another "
-        "trap, an error handler) x every placement of one and of two event occurrences (quick: second "
+        "trap, ON <event> GOSUB re-executed with the same or another routine while stopped / pending / inside "
+        "the handler / in the error handler, an error handler) x every placement of one and of two event occurrences (quick: second "
         "within 7 boundaries of the first; thorough: all pairs) over all statement boundaries of the run (and all 3-occurrence placements of one event kind; quick: for "
         "4 of the programs); sampled: Hypothesis programs (<= 12 main statements, handler bodies <= 3, "
         "optional error handler, 1-3 statements per line) with <= 7 scheduled occurrences. Non-trivial: some occurrence is "
@@ -56,6 +58,9 @@ ASSUMPTIONS = [
     "occurrence is injected by advancing it one full period. A period that elapsed while TIMER was "
     "OFF must not fire after TIMER ON (statement: lost; manual: counted from TIMER ON); the "
     "pinned tree fired it (own bucket timer.elapsed-while-off-fires-at-on; fixed in 79ed299f)",
+    "ON <event> GOSUB executed again changes the routine only, not ON/OFF/STOP, a remembered "
+    "occurrence or the in-handler block; ON ... GOSUB 0 is not generated (the manual does not "
+    "define it); ON TIMER(x) is not re-executed (restart of the interval unspecified)",
     "STOP executed while a trap is OFF leaves it OFF (manual: suspension remembers an event only "
     "if handling was switched on before)",
     "the boundary numbering assumes one event check per executed statement (calibrated by the "
@@ -108,6 +113,16 @@ def compile_case(case):
                     emit(tagstmt(tag), ('tag', tag, None))
                 else:
                     emit(CMD_TEXT[sm['e']] % sm['c'], ('cmd', sm['e'], sm['c']))
+            elif sm['s'] == 'redef':
+                # ON <event> GOSUB executed again, with the same or the alternate routine as target
+                # (not for TIMER: ON TIMER(x) also sets the interval, whose restart is unspecified)
+                if sm['e'] not in traps or sm['e'] == 'TIMER':
+                    tag = prefix + chr(97 + j)
+                    emit(tagstmt(tag), ('tag', tag, None))
+                else:
+                    which = 'alt' if sm.get('alt') else 'pri'
+                    line = 1000 * (traps.index(sm['e']) + 1) + (500 if which == 'alt' else 0)
+                    emit(ON_DEF[sm['e']] % line, ('redef', sm['e'], which))
             elif sm['s'] == 'err':
                 if case.get('errh') is None or owner == 'errh':
                     tag = prefix + chr(97 + j)
@@ -129,11 +144,18 @@ def compile_case(case):
     for i, tr in enumerate(traps):
         ln[0] = 1000 * (i + 1)
         join[0] = 0
-        hstart[tr] = len(code)
+        hstart[(tr, 'pri')] = len(code)
         d = TRAP_DIGIT[tr]
         emit(tagstmt(d + '<'), ('tag', d + '<', None))
         body(case['handlers'].get(tr, []), d, tr)
         emit(tagstmt(d + '>'), ('tag', d + '>', None))
+        emit('RETURN', ('return', None, None))
+        # alternate routine for the same trap (target of a redefinition)
+        ln[0] = 1000 * (i + 1) + 500
+        join[0] = 0
+        hstart[(tr, 'alt')] = len(code)
+        emit(tagstmt(d + '{'), ('tag', d + '{', None))
+        emit(tagstmt(d + '}'), ('tag', d + '}', None))
         emit('RETURN', ('return', None, None))
     estart = None
     if has_err:
@@ -163,7 +185,7 @@ def model_traces(case, timer_rearm_on_ON=True, max_steps=400, max_branches=200):
         sched.setdefault(k, []).append(ev)
     results = set()
     stats = {'stopped': 0, 'off': 0, 'inhandler': 0, 'inerr': 0, 'entered': 0, 'timer_off_tick': 0,
-             'after_end': 0, 'steps': 0}
+             'after_end': 0, 'steps': 0, 'redef_stopped': 0, 'redef_pending': 0}
     # DFS over choice sequences
     pending_runs = [[]]
     nruns = 0
@@ -190,6 +212,7 @@ def model_traces(case, timer_rearm_on_ON=True, max_steps=400, max_branches=200):
         stopped = {t: False for t in traps}
         pend = {t: False for t in traps}
         defined = {t: False for t in traps}
+        target = {t: 'pri' for t in traps}
         clock = 0
         tstart = 0
         in_err = False
@@ -246,7 +269,7 @@ def model_traces(case, timer_rearm_on_ON=True, max_steps=400, max_branches=200):
                     pend[t] = False
                     stopped[t] = True
                     stack.append([pc, t, False, False])     # ret pc, trap, own STOP seen, own OFF
-                    pc = hstart[t]
+                    pc = hstart[(t, target[t])]
                     if first:
                         stats['entered'] += 1
             op, a, c = code[pc]
@@ -259,6 +282,16 @@ def model_traces(case, timer_rearm_on_ON=True, max_steps=400, max_branches=200):
                 defined[a] = True
                 if a == 'TIMER':
                     tstart = clock
+                pc += 1
+            elif op == 'redef':
+                # a redefinition changes the routine only: ON/OFF/STOP state, a remembered
+                # occurrence and the block while the handler runs are untouched
+                target[a] = c
+                if first:
+                    if stopped[a] and mode[a] == 'ON':
+                        stats['redef_stopped'] += 1
+                    if pend[a]:
+                        stats['redef_pending'] += 1
                 pc += 1
             elif op == 'cmd':
                 if c == 'ON':
@@ -390,7 +423,8 @@ def check_case(case):
         return res
     nt = stats['stopped'] or stats['off'] or stats['inhandler'] or stats['inerr']
     res.nt(bool(nt))
-    for k in ('stopped', 'off', 'inhandler', 'inerr', 'timer_off_tick', 'after_end'):
+    for k in ('stopped', 'off', 'inhandler', 'inerr', 'timer_off_tick', 'after_end',
+              'redef_stopped', 'redef_pending'):
         if stats[k]:
             res.label('occurrence-' + k)
     res.label('entered-%s' % (stats['entered'] if stats['entered'] < 4 else '4+'))
@@ -434,9 +468,9 @@ def classify(got, allowed):
     i, t = best
     gi = g[i] if i < len(g) else 'END'
     ti = t[i] if i < len(t) else 'END'
-    if gi.endswith('<') and gi != 'e<':
+    if gi[-1:] in '<{' and gi != 'e<':
         return 'spurious-entry'
-    if ti.endswith('<') and ti != 'e<':
+    if ti[-1:] in '<{' and ti != 'e<':
         return 'missing-entry'
     return 'other'
 
@@ -453,6 +487,11 @@ def Cm(e, c):
 
 
 ER = {'s': 'err'}
+
+
+def Rd(e, alt=False):
+    return {'s': 'redef', 'e': e, 'alt': alt}
+
 
 FIXED = [
     # 0: plain ON
@@ -503,6 +542,19 @@ FIXED = [
     # 13: never switched on
     {'traps': ['K1', 'PEN'], 'main': [T(), Cm('K1', 'STOP'), T(), Cm('K1', 'OFF'), T()],
      'handlers': {}, 'errh': None},
+    # 14: redefinition while stopped, then occurrences, then ON
+    {'traps': ['K1', 'PEN'], 'main': [Cm('K1', 'ON'), Cm('K1', 'STOP'), Rd('K1'), T(), T(),
+                                      Cm('K1', 'ON'), T()], 'handlers': {}, 'errh': None},
+    # 15: the handler redefines its own trap (to the alternate routine)
+    {'traps': ['K1', 'PEN'], 'main': [Cm('K1', 'ON'), T(), T(), T(), T()],
+     'handlers': {'K1': [Rd('K1', True), T(), T()]}, 'errh': None},
+    # 16: redefinition between a remembered occurrence and ON; another trap's handler redefines
+    {'traps': ['K1', 'STRIG'], 'main': [Cm('K1', 'ON'), Cm('STRIG', 'ON'), Cm('K1', 'STOP'), T(),
+                                        Rd('K1', True), T(), Cm('K1', 'ON'), T()],
+     'handlers': {'STRIG': [Rd('K1'), T()]}, 'errh': None},
+    # 17: redefinition inside the error handler and while OFF
+    {'traps': ['PEN', 'K1'], 'main': [Rd('PEN', True), Cm('PEN', 'ON'), ER, T(), Rd('PEN'), T()],
+     'handlers': {'PEN': [Rd('PEN'), T()]}, 'errh': [Rd('PEN', True), T()]},
 ]
 
 
@@ -541,7 +593,7 @@ def _gen_exhaustive(shard, nshards, tier, seed):
         evs = _events_of(prog)
         n0 = _nboundaries(prog)
         # handlers lengthen the run: allow placements a bit beyond the undisturbed length
-        nb = n0 + 6
+        nb = n0 + (6 if tier == 'thorough' else 3)
         for k in range(1, nb + 1):
             for e in evs:
                 i += 1
@@ -566,7 +618,7 @@ def _gen_exhaustive(shard, nshards, tier, seed):
                         i += 1
                         if i % nshards == shard:
                             yield dict(prog, sched=[[k1, e1], [k2, e2]], fixed=pi, post=prog['traps'][:1])
-        if tier == 'thorough' or pi in (1, 3, 4, 6):
+        if tier == 'thorough' or pi in (1, 3, 4, 15):
             e = evs[0]
             for ks in itertools.combinations(range(1, nb + 3), 3):
                 i += 1
@@ -581,9 +633,10 @@ def strat_case():
     def build(tr):
         ev = st.sampled_from(tr)
         cmd = st.builds(Cm, ev, st.sampled_from(['ON', 'ON', 'ON', 'STOP', 'STOP', 'OFF']))
-        mainst = st.one_of(st.just(T()), st.just(T()), cmd, cmd, cmd, st.just(ER))
-        hst = st.one_of(st.just(T()), st.just(T()), cmd, st.just(ER))
-        est = st.one_of(st.just(T()), cmd)
+        redef = st.builds(Rd, ev, st.booleans())
+        mainst = st.one_of(st.just(T()), st.just(T()), cmd, cmd, cmd, st.just(ER), redef)
+        hst = st.one_of(st.just(T()), st.just(T()), cmd, st.just(ER), redef)
+        est = st.one_of(st.just(T()), cmd, redef)
         main = st.lists(mainst, min_size=3, max_size=12)
         handlers = st.fixed_dictionaries({t: st.lists(hst, max_size=3) for t in tr})
         errh = st.one_of(st.none(), st.lists(est, max_size=3), st.lists(est, max_size=3))
@@ -651,5 +704,9 @@ KILLS = [
     "basicevents.command: ON clears `triggered` -> trace.missing-entry",
     "tree before fix 79ed299f (TIMER period not restarted by TIMER ON) -> "
     "timer.elapsed-while-off-fires-at-on (exhaustive-small program 9, sampled units, REGRESSIONS)",
+    "basicevents.EventHandler.set_jump calls reset() (ON <event> GOSUB clears stopped/triggered) -> "
+    "trace.spurious-entry (fires while STOPped; handler re-entered before RETURN) and "
+    "trace.missing-entry (remembered occurrence dropped) in exhaustive-small programs 14-17, sampled "
+    "and sampled-on (survived before redefinition statements were generated)",
     "(exhaustive-small run with VERIF_SCALE=0.15, i.e. every 7th case; all ten still killed)",
 ]
